@@ -3,5 +3,8 @@ CONSTANTS
   GseLenMax = 4095
   TotalLenMax = 65535
   Maxes = {0, 1, 2, 3, 255}
+  Export = FALSE
+  Depth = 0
+VIEW View
 INVARIANTS TypeOK Attribution ResolveNearest DisabledNeverSubstitutes MaxRespected FullAfterClear SubstituteOnlySame
 CHECK_DEADLOCK FALSE
